@@ -43,6 +43,9 @@ type drainCase struct {
 	NewDrain int    `json:"new_drain_ms,omitempty"` // reload trigger: DrainTimeout of the NEW configuration (0 = same)
 	Ds       []int  `json:"ds"`
 	Trigger  string `json:"trigger"` // stop|cancel|reload
+	// PreReload: before the requests are fired the server is replaced once by an effective Reload (changed read
+	// timeout), so that the server being drained is one that Reload booted, not the one Run booted
+	PreReload bool `json:"pre_reload,omitempty"`
 }
 
 type drainObs struct {
@@ -79,11 +82,13 @@ func runDrainCase(c drainCase) (drainObs, error) {
 	if err != nil {
 		return obs, err
 	}
-	var shutRet atomic.Int64 // unix nanos of the first Shutdown return (the old server's)
+	var shutRet atomic.Int64 // unix nanos of the first Shutdown return of the measured phase
+	var measuring atomic.Bool // false while the preparatory Reload replaces the server
+	var shutCalls atomic.Int64
 	shutCalled := make(chan struct{})
 	var shutOnce sync.Once
 	creator := func(a string, h http.Handler, cfg *httpserver.Config) httpserver.HttpServer {
-		return &timedSrv{inner: httpserver.DefaultServerCreator(a, h, cfg), ret: &shutRet,
+		return &timedSrv{inner: httpserver.DefaultServerCreator(a, h, cfg), ret: &shutRet, on: &measuring, calls: &shutCalls,
 			called: func() { shutOnce.Do(func() { close(shutCalled) }) }}
 	}
 	mk := func(drain int, read time.Duration) *httpserver.Config {
@@ -121,6 +126,14 @@ func runDrainCase(c drainCase) (drainObs, error) {
 		}
 		time.Sleep(time.Millisecond)
 	}
+	if c.PreReload {
+		cur.Store(mk(c.DrainMs, 7*time.Second))
+		runner.Reload(context.Background())
+		if st := runner.GetState(); st != "Running" {
+			return obs, fmt.Errorf("preparatory Reload did not return with Running: %s", st)
+		}
+	}
+	measuring.Store(true)
 	// fire the requests
 	done := make([]time.Time, len(c.Ds))
 	full := make([]bool, len(c.Ds))
@@ -151,6 +164,9 @@ func runDrainCase(c drainCase) (drainObs, error) {
 		time.Sleep(200 * time.Microsecond)
 	}
 	effDrain := c.DrainMs
+	if effDrain < 0 {
+		effDrain = 0 // a non-positive DrainTimeout is an already expired shutdown context: do not wait
+	}
 	t0 := time.Now()
 	trigDone := make(chan struct{})
 	var trigRet atomic.Int64 // the instant the trigger call returned, taken in its own goroutine
@@ -166,6 +182,9 @@ func runDrainCase(c drainCase) (drainObs, error) {
 		if c.NewDrain > 0 {
 			nd = c.NewDrain
 			effDrain = nd // stopServer reads DrainTimeout from r.config, which already holds the NEW configuration
+			if effDrain < 0 {
+				effDrain = 0
+			}
 		}
 		cur.Store(mk(nd, 6*time.Second))
 		go func() { runner.Reload(context.Background()); fin() }()
@@ -183,7 +202,7 @@ func runDrainCase(c drainCase) (drainObs, error) {
 				obs.DialAfter = dialOK(addr)
 				dialChecked = true
 			}
-		case <-time.After(3 * time.Second):
+		case <-time.After(time.Second):
 		}
 	}
 	select {
@@ -258,6 +277,15 @@ func runDrainCase(c drainCase) (drainObs, error) {
 	}
 	emitLine("DR\t%s\t%d\t%d\t%d\t%d\t%s\t%s\t%d\t%s\t%s", c.ID, effDrain, obs.Gap, drainBand, drainSlack,
 		strings.Join(ds, ","), okS, obs.T, strings.Join(fl, ","), c.Trigger)
+	// the trigger must have reached http.Server.Shutdown of the server being drained (a stop that skips it returns
+	// at once, leaves the listener open and reports nothing)
+	{
+		v := "ok"
+		if shutCalls.Load() == 0 {
+			v = "FAIL"
+		}
+		emitLine("PROP\t%s\tc14-shutdown-called %s Shutdown calls on the drained server during the trigger=%d", c.ID, v, shutCalls.Load())
+	}
 	// property predicates directly on the observables
 	if dialChecked {
 		v := "ok"
@@ -306,11 +334,17 @@ func runDrainCase(c drainCase) (drainObs, error) {
 type timedSrv struct {
 	inner  httpserver.HttpServer
 	ret    *atomic.Int64
+	on     *atomic.Bool
+	calls  *atomic.Int64
 	called func()
 }
 
 func (s *timedSrv) ListenAndServe() error { return s.inner.ListenAndServe() }
 func (s *timedSrv) Shutdown(ctx context.Context) error {
+	if !s.on.Load() {
+		return s.inner.Shutdown(ctx)
+	}
+	s.calls.Add(1)
 	s.called()
 	err := s.inner.Shutdown(ctx)
 	s.ret.CompareAndSwap(0, time.Now().UnixNano())
@@ -336,6 +370,22 @@ func drainGrid(r *prng.R, n int, quick bool) []drainCase {
 			}
 		}
 	}
+	// the drained server was booted by a Reload, not by Run (the shutdown guard must have been re-armed for it)
+	for ti, tr := range trigs {
+		cs = append(cs, drainCase{DrainMs: 150, Ds: []int{40}, Trigger: tr, PreReload: true})
+		cs = append(cs, drainCase{DrainMs: 150, Ds: []int{400}, Trigger: tr, PreReload: true})
+		if !quick || ti == 0 {
+			cs = append(cs, drainCase{DrainMs: 300, Ds: []int{80, 700}, Trigger: tr, PreReload: true})
+		}
+	}
+	// DrainTimeout <= 0 (accepted by NewConfig): do not wait at all, report the deadline
+	for ti, tr := range trigs {
+		cs = append(cs, drainCase{DrainMs: 0, Ds: []int{300}, Trigger: tr})
+		if !quick || ti == 0 {
+			cs = append(cs, drainCase{DrainMs: -1, Ds: []int{300, 60}, Trigger: tr})
+			cs = append(cs, drainCase{DrainMs: 0, Ds: nil, Trigger: tr})
+		}
+	}
 	// a long drain with short requests: Stop must NOT wait out the timeout
 	add(1000, []int{80}, "stop")
 	add(1000, []int{40, 120}, "reload")
@@ -359,7 +409,12 @@ func drainGrid(r *prng.R, n int, quick bool) []drainCase {
 				ds[j] = 1
 			}
 		}
-		add(dr, ds, prng.Pick(r, trigs))
+		c := drainCase{DrainMs: dr, Ds: ds, Trigger: prng.Pick(r, trigs), PreReload: r.Chance(1, 4)}
+		if r.Chance(1, 12) {
+			c.DrainMs = -r.Intn(2)
+			c.PreReload = false // with DrainTimeout <= 0 every effective Reload ends in Error (its stopServer times out)
+		}
+		cs = append(cs, c)
 	}
 	for i := range cs {
 		cs[i].ID = fmt.Sprintf("d%04d", i)
